@@ -164,9 +164,14 @@ class Representation(NamedTuple):
             r"|(?P<digit>[AX9Z0]+)"
         )
         picture: list[dict[str, str]] = []
-        ending = -1
-        picture_elements = pic_pattern.finditer(source)
+        if not source.isascii():
+            raise ValueError(f"Invalid characters in PIC {source!r}")
+        ending = 0
+        picture_elements = pic_pattern.finditer(source.upper())
         for pic in picture_elements:
+            if pic.start() != ending:
+                # The matches must cover the picture; nothing may be skipped.
+                break
             ending = pic.end()
             if pic.groupdict()["repeat"]:
                 # Normalize Picture: expand 9(5) to {"digit": "99999"}
@@ -176,6 +181,8 @@ class Representation(NamedTuple):
                 count: str
                 char: str
                 char, left, *count, right = pic.groupdict()["repeat"]  # type: ignore [misc]
+                if int("".join(count)) == 0:
+                    raise ValueError(f"Zero repeat count in PIC {source!r}")
                 picture.append({"digit": int("".join(count)) * char})
             else:
                 # No need to normalize, use {"digit": "99999"} or whatever we found
